@@ -230,6 +230,7 @@ Proof.
   intros Hn. unfold handle_append_response.
   destruct (t >? term n); [eapply apply_inv_same_core; [apply step_down_core|exact Hn]|].
   destruct (negb _); [exact Hn|].
+  destruct (t <? term n); [exact Hn|].
   destruct s; cbn [fst].
   - apply try_commit_inv. eapply apply_inv_same_core; [|exact Hn]. destruct n; core_simpl.
   - match goal with |- context [if ?b then _ else _] => destruct b end; cbn [fst];
